@@ -97,4 +97,9 @@ CLAIMS = {
         "note": TRUST,
         "technique": "sibling cross-check: field-write effect sets + shared per-site MIR rules on every serial/parallel variant",
     },
+    "C20": {
+        "text": "Partial, structural: decides from MIR with resolved generic arguments that no source of run-to-run variation exists in library code that computes outputs: every iteration over a std/hashbrown/dashmap hash map or set uses the fixed-seed Fx hasher, or its items are collected and sorted before the function returns (30+ sites; indexmap and the raw HashTable are out of scope by stated assumption); calls to env/clock/randomness/thread-identity APIs are exactly a frozen 14-entry table and Instant values only flow into elapsed(); an exposed pointer address only flows back into a pointer and never into hashing, ordering or an id. Found F9 (ActionRegistry::table_sizes iterated a randomly seeded map: three processes, three orders; fixed). Does NOT decide equality of two executions.",
+        "note": TRUST + " Inventory rule: a new harmless default-hashed iteration would be reported and needs a table entry with a reason.",
+        "technique": "inventory over resolved generic arguments (hasher type at each iteration site) + frozen who-may-call table + forward taint of exposed addresses",
+    },
 }
